@@ -72,6 +72,28 @@ def gen_case(rng, mode, length):
     return ops
 
 
+def gen_deep_case(rng, mode):
+    """many keys sharing ONE probe base in a large table: drives probing through 8 and more groups
+    (a table of >= 256 buckets refuses only when every bucket is occupied)"""
+    n = rng.choice([256, 300, 512, 1024])
+    base = rng.choice([0, 3, 15, 17, 100, 255, 511, rng.randrange(1024)])
+    count = rng.choice([130, 150, 200, 260])
+    keys = set()
+    while len(keys) < count:
+        keys.add(rng.randrange(128) | (base << 7) | (rng.randrange(1 << 20) << 20))
+    keys = list(keys)
+    ops = ["new A %d" % n]
+    for k in keys:
+        ops.append("A emplace %d %d" % (k, rng.randrange(1000) if mode == "map" else 0))
+    ops += ["A size", "A bc"]
+    for k in rng.sample(keys, 12):
+        ops.append("A find %d" % k)
+    if mode != "moveonly":
+        ops += ["copyctor A B", "B size", "B iter"]
+    ops += ["A rehash %d" % rng.choice([16, 200, 300]), "A size", "A iter", "A clear", "A size"]
+    return ops
+
+
 def features(case):
     """(for the distribution / non-triviality rule)"""
     n_emplace = sum(1 for o in case if " emplace " in o)
@@ -123,7 +145,10 @@ def run(ctx):
         cases = load_corpus(mode)
         ncorp = len(cases)
         for _ in range(ncases // len(MODES)):
-            cases.append(gen_case(ctx.rng, mode, ctx.rng.choice([12, 40, 120, 300])))
+            if ctx.rng.random() < 0.12:
+                cases.append(gen_deep_case(ctx.rng, mode))
+            else:
+                cases.append(gen_case(ctx.rng, mode, ctx.rng.choice([12, 40, 120, 300])))
         for c in cases:
             ne, kinds = features(c)
             dist["max_emplace"] = max(dist["max_emplace"], ne)
